@@ -1469,6 +1469,14 @@ def r_cutset(ctx):
                 ctx.check(bool(it['starts']) and bool(cmp_) and not any(e in r_ for e in it['ends']), 'R08.1', tag + '/every-marked-member-is-handed-out', b, b.loc(it['at'][0]),
                           'every marked node of the cut-set reaches the callback (the only reason to skip a member is "not marked")',
                           'an iteration of the drain loop can end without handing the node out although it is marked: that sub-problem is silently dropped and nothing else covers its completions')
+                # ... and the loop itself is only left when the iterator is exhausted: "not marked" excuses skipping THIS member, not
+                # the rest of the cut-set (a guard clause written `return` where `continue` was meant: seeded/C08-r10-2)
+                if it['kind'] == 'for':
+                    rets_ = set(ret_points(b))
+                    r2_ = b.reach(it['starts'], avoid=[it['at']])
+                    ctx.check(not any(e in r2_ for e in rets_), 'R08.1', tag + '/drain-loop-runs-to-the-end', b, b.loc(it['at'][0]),
+                              'the drain loop is left only when the cut-set is exhausted (no return from inside an iteration)',
+                              '_drain_cutset can return from inside an iteration of the drain loop: the remaining members of the cut-set are never handed out')
         # ---- R08.5 local bounds -------------------------------------------------------------------
         lb = ctx.body(adt, '_compute_local_bounds')
         for body in ctx.unit(lb):
